@@ -80,12 +80,12 @@ func (engine) CoqHeader() string {
 }
 func (engine) CoqCaseType() string { return "ccase" }
 
-var kinds = []string{"pregel", "dag", "workflow", "chain", "state", "nested", "tools", "react", "host", "ckpt", "comp", "reent", "multi", "embed"}
+var kinds = []string{"pregel", "dag", "workflow", "chain", "state", "nested", "tools", "react", "host", "ckpt", "comp", "reent", "multi", "embed", "fan"}
 
 var builders = map[string]func(*lib.Rng, *zoo) (*object, error){
 	"pregel": buildPregel, "dag": buildDag, "workflow": buildWorkflow, "chain": buildChain, "state": buildState,
 	"nested": buildNested, "tools": buildTools, "react": buildReact, "host": buildHost,
-	"ckpt": buildCkpt, "comp": buildComp, "reent": buildReent, "multi": buildMulti, "embed": buildEmbed,
+	"ckpt": buildCkpt, "comp": buildComp, "reent": buildReent, "multi": buildMulti, "embed": buildEmbed, "fan": buildFan,
 }
 
 func (engine) Generate(r *lib.Rng, tier string, i int) any {
